@@ -4,7 +4,8 @@ harness/shim_hashset.c).  All randomness comes from the `rng` argument.
 Op vocabulary (table):   new cap= lf= hash= [seed=] [klen=] [keys=buf] | new_default | add k v | get k |
   contains_key k | remove k [noout=1] | remove_all | foreach_key | foreach_value |
   mk_keys to=s | mk_values to=s | arr_add v o=s | arr_destroy o=s | it_new | it_next |
-  it_remove [noout=1] | destroy_table | observe | destroy   (constructor lines take obs=sparse)
+  it_remove [noout=1] | destroy_table | observe | destroy   (constructor lines take obs=sparse and
+  phys=sum: chains as checksums, in full on `observe`)
 Op vocabulary (set):     new … | new_default | add e | contains e | remove e [noout=1] | remove_all |
   foreach | it_new | it_next | it_remove [noout=1] | destroy
 Keys/elements are integers, 0 is the NULL key.
@@ -15,8 +16,11 @@ focus=None  : the operations C02 names (add-or-replace, get, contains, remove, r
 "derived"   : mk_keys/mk_values + follow-up ops on both objects (arr_add, destroy_table first);
 "growth"    : insert-dominated from tiny capacities;   "fault": ops that allocate (no fail=);
 "all"       : everything mixed.
-Contract respected by construction: it_next/it_remove only on an iterator created after the last
-mutation (the shims also refuse anything else with `noiter`).  it_remove before the first it_next and a
+"scale"     : (method `scale`) few long histories: >= 1100 keys, several rehashes, sweeps, obs=sparse phys=sum.
+Contract respected by construction: it_next/it_remove only on an iterator that is still valid.  A live
+iterator survives get / contains_key always, add unless it rehashes, remove unless it frees the entry
+prev_entry / next_entry points to (the shims and drivers decide that identically and answer `noiter`
+afterwards); such direct calls are mixed into iterator programs with probability ~0.2 per step.  it_remove before the first it_next and a
 repeated it_remove are legal calls (KEY_NOT_FOUND, inert) and are generated.
 """
 import itertools
@@ -26,6 +30,7 @@ LIB_HASHES = ["lib_str", "lib_gen", "lib_ptr"]
 CAPS = [0, 1, 2, 3, 16, 17]
 LFS = ["0.25", "0.5", "0.75", "1"]
 ODD_LFS = ["0.3", "0.6", "0.9", "0.35"]
+KLENS = [1, 2, 3, 5, 6, 7, 9, 13, 15, 16, 17, 23, 31, 32, 33, 4, 8, 8, 13, 16, 17]
 
 
 def conf_line(rng, tier, growth=False, is_set=False):
@@ -33,15 +38,16 @@ def conf_line(rng, tier, growth=False, is_set=False):
     h = rng.choice(HARNESS_HASHES) if r < 0.7 else rng.choice(LIB_HASHES)
     cap = rng.choice([0, 1, 2, 3] if growth else CAPS)
     lf = rng.choice(LFS) if rng.random() < 0.85 else rng.choice(ODD_LFS)
-    # real buffer keys (a fresh copy of the bytes on every call, comparator = memcmp/strcmp): a quarter
-    # of the histories, fixed lengths 4, 8 (= sizeof(void*)), 16 and variable-length strings
+    # real buffer keys (a fresh copy of the bytes on every call in an exact-size block from the real malloc, at a
+    # different offset 0..7 each time; comparator = memcmp/strcmp): a quarter of the histories
     buf = rng.random() < 0.25
     if buf:
         h = rng.choice(["lib_gen", "lib_gen", "lib_gen", "lib_str"])
     line = f"new cap={cap} lf={lf} hash={h}"
     klen = 4
     if h == "lib_gen":
-        klen = rng.choice([1, 2, 3, 5, 7, 13, 13, 8, 8, 4, 16])
+        # lengths below / at / above the word and the 16-byte block, multiples and non-multiples of 4 and 16
+        klen = rng.choice(KLENS)
         line += f" klen={klen}"
     if buf:
         line += " keys=buf"
@@ -156,9 +162,20 @@ class HashTableGen:
                 ops += ["it_new", "it_remove", "it_next", "it_remove", "it_remove", "it_next", "it_next", "it_next",
                         "it_remove", "it_remove", "it_next"] + self._tail(3) + ["destroy"]
                 out.append(ops)
+        # a direct get / contains / remove / add between two steps of a live iterator, at every position
+        for h in ("const", "id", "low"):
+            keys = (1, 2, 3, 0)
+            direct = [self._contains(k) if self.is_set else f"get {k}" for k in keys] + [f"remove {k}" for k in keys] + \
+                     [self._add(9, 99), self._add(2, 77), self._add(4, 44), self._contains(9)]
+            for pos in range(0, 4):
+                for d in direct:
+                    ops = [f"new cap=8 lf=1 hash={h}"] + [self._add(k, 20 + k) for k in keys]
+                    ops += ["it_new"] + ["it_next"] * pos + [d] + ["it_next", "it_remove", "it_next", "it_next", "it_next", "it_next"]
+                    ops += self._tail(5) + ["destroy"]
+                    out.append(ops)
         out.append(["new_default", self._add(1, 2), self._add(0, 3), self._add(1, 4), "remove 1", "remove 1", "destroy"])
         # real buffer keys: an equal key arrives from a different buffer on every call
-        for conf in ["hash=lib_gen klen=%d" % kl for kl in (1, 2, 3, 5, 7, 13, 8, 4, 16)] + ["hash=lib_str"]:
+        for conf in ["hash=lib_gen klen=%d" % kl for kl in sorted(set(KLENS))] + ["hash=lib_str"]:
             for cap in (1, 16):
                 ops = [f"new cap={cap} lf=0.75 {conf} keys=buf"]
                 ops += [self._add(5, 50), self._add(5, 51), self._add(300, 52), self._contains(5), self._contains(6)]
@@ -219,6 +236,90 @@ class HashTableGen:
                             ops += [f"mk_keys to=1 fail={k}", f"mk_values to=2 fail={k}", "mk_keys to=3"]
                         ops += self._tail(nfill + 2) + ["destroy"]
                         out.append(ops)
+        return out
+
+    # ---------------------------------------------------------------- scale
+    def scale(self, rng, tier):
+        """few LONG histories: >= 1100 keys through several rehashes (capacities 1, 2, 16, 257 -> rounded; load factors
+        0.25, 0.75, 1.0), look-ups / removals / re-insertions at the front, the middle and the back of the key range,
+        iterator sweeps with removals and direct calls in between, key/value arrays of the big table, remove_all and a
+        refill.  obs=sparse + phys=sum: content and full chains every ~50 operations, checksums in between."""
+        nh = 3 if tier == "quick" else 24
+        out = []
+        confs = [("id", 4, False), ("mul", 4, False), ("lib_gen", 8, True), ("lib_str", 4, True), ("lib_gen", 13, True),
+                 ("lib_ptr", 4, False), ("lib_gen", 17, False), ("low", 4, False)]
+        for i in range(nh):
+            h, klen, buf = confs[(i + (rng.randint(0, 4) if tier == "quick" else 0)) % (5 if tier == "quick" else len(confs))]
+            cap = rng.choice([1, 2, 16, 257]) if tier == "quick" else [1, 257, 16, 2][i % 4]
+            lf = rng.choice(["0.25", "0.75", "1.0"]) if tier == "quick" else ["0.75", "0.25", "1.0", "0.75"][(i + i // 4) % 4]
+            n = rng.randint(1100, 1300) if h != "low" else 300
+            line = f"new cap={cap} lf={lf} hash={h}" + (f" klen={klen}" if h == "lib_gen" else "") + \
+                   (" keys=buf" if buf else "") + (f" seed={rng.choice([1, 7, 12345])}" if h.startswith("lib_") else "") + \
+                   " obs=sparse phys=sum"
+            stride = rng.choice([1, 3, 16, 64, 4096 + 1])
+            base = rng.randint(1, 50)
+            keys = [base + stride * j for j in range(n)]
+            rng.shuffle(keys)
+            ops = [line]
+            live = []
+
+            def emit(op):
+                ops.append(op)
+                if len(ops) % 50 == 0:
+                    ops.append("observe")
+            for j, k in enumerate(keys):
+                emit(self._add(k, pick_val(rng)))
+                live.append(k)
+                if j % 97 == 0:
+                    emit(self._contains(k))
+            emit(self._add(0, 5))
+            live.append(0)
+            ops.append("observe")
+            srt = sorted(live)
+            # front / middle / back of the key range, hits and misses
+            for _ in range(150):
+                r = rng.random()
+                zone = rng.choice([srt[:20], srt[len(srt) // 3: len(srt) // 3 + 20], srt[-20:], srt])
+                k = rng.choice(zone)
+                if r < 0.3:
+                    emit(self._contains(k) if self.is_set else f"get {k}")
+                elif r < 0.4:
+                    emit(self._contains(k + stride * n + 7))
+                elif r < 0.7:
+                    emit(f"remove {k}" + (" noout=1" if rng.random() < 0.2 else ""))
+                    if k in live:
+                        live.remove(k)
+                elif r < 0.9:
+                    emit(self._add(k, pick_val(rng)))
+                    if k not in live:
+                        live.append(k)
+                else:
+                    emit(self._foreach(rng))
+            if not self.is_set:
+                ops += ["mk_keys to=1", "mk_values to=2", "observe", "arr_add 7 o=2", "arr_add 8 o=2", "observe",
+                        "arr_destroy o=1", "arr_destroy o=2"]
+            # iterator sweep with removals and direct calls in between
+            emit("it_new")
+            p_rm = rng.choice([0.1, 0.3, 0.6])
+            for _ in range(len(live) + 2):
+                emit("it_next")
+                if rng.random() < p_rm:
+                    emit("it_remove" + (" noout=1" if rng.random() < 0.2 else ""))
+                    if rng.random() < 0.1:
+                        emit("it_remove")
+                if rng.random() < 0.05:
+                    k = rng.choice(srt)
+                    emit(rng.choice([self._contains(k), self._contains(k) if self.is_set else f"get {k}", f"remove {k}"]))
+            ops.append("observe")
+            # second sweep without removals over what is left, then clear and refill across the rehash boundary
+            emit("it_new")
+            for _ in range(60):
+                emit("it_next")
+            emit("remove_all")
+            for k in keys[:200]:
+                emit(self._add(k, pick_val(rng)))
+            ops += ["observe", "destroy"]
+            out.append(ops)
         return out
 
     # ---------------------------------------------------------------- random
@@ -326,8 +427,21 @@ class HashTableGen:
                 p_remove = rng.choice([0.0, 0.2, 0.5, 1.0])
                 if rng.random() < 0.15:
                     ops.append("it_remove")          # before the first next: KEY_NOT_FOUND, inert
+                mixed = rng.random() < 0.6
                 for _ in range(steps):
                     ops.append("it_next" + (" noout=1" if self.is_set and rng.random() < 0.1 else ""))
+                    if mixed and rng.random() < 0.2:
+                        # a direct call on the table between two iterator steps
+                        r = rng.random()
+                        if r < 0.45:
+                            ops.append(self._contains(some_key()) if self.is_set or rng.random() < 0.4 else f"get {some_key()}")
+                        elif r < 0.75:
+                            kk = some_key()
+                            ops.append(f"remove {kk}" + (" noout=1" if rng.random() < 0.15 else ""))
+                        else:
+                            kk = rng.choice(pool)
+                            ops.append(self._add(kk, pick_val(rng)))
+                            live.add(kk)
                     if rng.random() < p_remove:
                         ops.append("it_remove" + (" noout=1" if rng.random() < 0.2 else ""))
                         if rng.random() < 0.15:
